@@ -233,8 +233,13 @@ Fixpoint set_exts (s : state) (i : nat) (scripts : list (list action)) : state :
   | sc :: r => set_exts (set_pend s (TX i) (map IAct sc)) (S i) r
   end.
 
+Fixpoint ins_ty {A} (p : N * A) (l : list (N * A)) : list (N * A) :=
+  match l with
+  | [] => [p]
+  | q :: r => if fst p <=? fst q then p :: l else q :: ins_ty p r
+  end.
 Definition t_subs (s : state) : tm :=
-  tlist (fun p => TL [TN (fst p); tlist t_path (sort_paths (map fst (snd p)))]) (subs s).
+  tlist (fun p => TL [TN (fst p); tlist t_path (sort_paths (map fst (snd p)))]) (fold_right ins_ty [] (subs s)).
 
 Definition run_actor (t : tm) : tm :=
   match t with
